@@ -73,6 +73,7 @@ func main() {
 	second := flag.String("second", "", "second solver to cross-check every obligation")
 	trace := flag.Bool("trace", false, "trace calls")
 	noPanics := flag.Bool("nopanics", false, "do not discharge panic obligations")
+	flag.BoolVar(&coalesceSlices, "coalesce", false, "at a phi, copy a union of slice values into one fresh array (sound when the program does not write through aliases of those slices; for work-list loops)")
 	dumpDir := flag.String("dump", "", "dump smt queries to dir")
 	maxCalls := flag.Int("maxcalls", 200000, "inlined call budget")
 	assumeUnwind := flag.String("assumeunwind", "newShortID=2", "fn=k,...: loops of fn are assumed (not asserted) to exit within k iterations")
